@@ -820,8 +820,9 @@ def rule_R7(ctx, f):
     ctx.ob(rid, "encode_impl|header-pieces", seq == want, "header pieces must be %s (found %s)" % (want, seq), site=b.raw["span"]["at"])
     if seq == want:
         cs = sink_calls(b)
-        chain = all(b.dominates(cs[i].bb, cs[i + 1].bb) for i in list(range(0, 4)) + list(range(5, 9)))
-        ctx.ob(rid, "encode_impl|header-order", chain and all(b.dominates(cs[i].bb, c.bb) for i in range(5, 10) for c in b.calls_to("write_sample")),
+        # (path-sensitive: when the header is written by an expanded helper, its early error returns meet its Ok in one block before the caller's `?`)
+        chain = all(b.dominates_ps(cs[i].bb, cs[i + 1].bb) for i in list(range(0, 4)) + list(range(5, 9)))
+        ctx.ob(rid, "encode_impl|header-order", chain and all(b.dominates_ps(cs[i].bb, c.bb) for i in range(5, 10) for c in b.calls_to("write_sample")),
                "the pieces of each header line are written in order and the TYPE line precedes all samples", site=cs[5].span)
         # HELP guarded by !help.is_empty(); TYPE unconditional
         g = False
